@@ -51,6 +51,8 @@ def run(ck, F):
     ck.rule("R3", "status gate: a propagated Response::error_for_status[_ref] on the sent response dominates every Ok return")
     ck.rule("R4", "the Ok payload originates only from the Ok of yaserde::de::from_str over the awaited response text; no "
                   "defaulting/unwrapping on the way")
+    ck.rule("R5", "errors, not panics: no panic-family operation (index / slice by position, unwrap / expect, overflow assertion, "
+                  "explicit panic) in any function of the emitted module that the exchange reaches, its error conversions included")
     senders = H.sender_fn(F)
     ck.floor("R1", "functions calling RequestBuilder::send", len(senders), 1)
     if len(senders) != 1:
@@ -310,12 +312,89 @@ def run(ck, F):
         else:
             ck.violation("R4", "payload-provenance", sp(B, obb),
                          "the Ok payload does not originate (only) from yaserde::de::from_str: " + ", ".join(str(s[1]) for s in src), fn=short)
+    # once the request was sent, the reply is judged by its status and by the deserializer, nothing else: an error that the helper
+    # builds by its own judgement of the reply (a text search in the body, a header test, ..) turns valid replies into errors
+    if send is not None:
+        after_send = B.reachable_from(send[0])
+        own_errs = []
+        for i in sorted(after_send):
+            if i == send[0]:
+                continue
+            for st_ in B.blocks[i]["stmts"]:
+                if st_["k"] == "assign" and st_["rv"]["k"] == "aggregate" and str(st_["rv"].get("adt", "")).endswith("result::Result") \
+                        and st_["rv"].get("variant") == "Err" and not B.blocks[i].get("from_std"):
+                    # (the Err of a `?` is made by from_residual / map_err, not by an aggregate in this body)
+                    tl = st_["p"]["l"]
+                    if _err_of_a_step(B, st_["rv"]):
+                        continue      # the error of a step, re-wrapped by hand (`Err(e) => Err(SoapError::Http(e))`)
+                    if tl == 0 or B.locals[tl].get("inl_ret") or any(
+                            s2["k"] == "assign" and s2["p"]["l"] == 0 and s2["rv"]["k"] == "use" and s2["rv"]["op"].get("p", {}).get("l") == tl
+                            for j in sorted(after_send) for s2 in B.blocks[j]["stmts"]):
+                        own_errs.append((i, st_))
+        seen_sp = set()
+        for i, st_ in own_errs:
+            sp_ = st_.get("sp") or sp(B, i)
+            if sp_ in seen_sp:
+                continue
+            seen_sp.add(sp_)
+            ck.violation("R4", "reply-judged-by-helper", sp_,
+                         "after the request was sent the helper returns an Err that it builds itself (not the error of the status check, of "
+                         "reading the body or of the deserializer): a 2xx reply holding the response envelope can be reported as a failure", fn=short)
+        if not own_errs:
+            ck.ok("R4", "reply-judged-by-status-and-deserializer", fb["span"], "after the send, every Err comes from the transport, the status check or the "
+                  "deserializer", fn=short)
     bad = [(bb, t) for bb, t in B.calls() if any((M.Body.callee_decl(t) or "").endswith(x) for x in DEFAULTING)]
     for bb, t in bad:
         ck.violation("R4", f"defaulting:{M.Body.callee_decl(t)}", sp(B, bb),
                      f"{M.Body.callee_decl(t)} in the exchange function: a failed step can be turned into a value or a panic", fn=short)
     if not bad:
         ck.ok("R4", "no-defaulting", fb["span"], "no unwrap_or*/ok()/default()/unwrap on the exchange path", fn=short)
+    # ---- R5: a failed exchange is reported as an error — so nothing the exchange reaches inside the emitted module may panic
+    # instead (an index / slice by byte position, unwrap, arithmetic that can overflow, ..): the error path is code too
+    from engine.rulekit import scans
+    g = scans.call_graph(F.lib)
+    roots = [b_["path"] for b_ in senders] + H.entry_fns(F) + [e_ + "::{closure#0}" for e_ in H.entry_fns(F)]
+    reach = {p_ for p_ in scans.reachable(g, roots) if "helpers_content" in p_}
+    # conversions into the module's error type run on the `?` of the exchange
+    reach |= {b_["path"] for b_ in F.lib.bodies if b_["path"].startswith("<model::helpers_content::error::")
+              and (" as std::convert::From<" in b_["path"] or " as std::fmt::Display>" in b_["path"])}
+    reach |= {p_ for p_ in scans.reachable(g, sorted(reach)) if "helpers_content" in p_}
+    reach = {p_ for p_ in reach if "CheckRestrictions" not in p_ and "::restrictions::" not in p_ and "multi_ref" not in p_}
+    ck.count("R5:functions of the emitted module reachable from the exchange", len(reach))
+    hits = [h for h in scans.scan_panics(F.lib) if h[0] in reach]
+    for (pfn, site, what, n, pbb) in hits:
+        ck.violation("R5", f"panic:{pfn.replace('model::helpers_content::', '')}:{what.rsplit('::', 1)[-1]}#{n}", site,
+                     f"{pfn} (reached from the exchange) can panic here ({what}): for some reply or failure the call neither returns the "
+                     f"response nor an error", fn=short)
+    if not hits:
+        ck.ok("R5", "no-panic", fb["span"], f"none of the {len(reach)} functions of the emitted module that the exchange reaches holds a panic-family "
+              f"operation (index/slice, unwrap/expect, overflow assertion, explicit panic)", fn=short)
+    ck.floor("R5", "functions of the emitted module reachable from the exchange", len(reach), 3)
+
+
+STEP_ERRORS = ("reqwest::Response::error_for_status_ref", "reqwest::Response::error_for_status", "reqwest::Response::text",
+               "reqwest::Response::text_with_charset", "reqwest::Response::bytes", "yaserde::de::from_str", "yaserde::ser::to_string",
+               "reqwest::RequestBuilder::send", "future::Future::poll", "CheckRestrictions::check_restrictions")
+
+
+def _err_of_a_step(B, rv, depth=0):
+    """the payload of a hand-built `Err(..)` is (a wrapping of) the error that one of the steps of the exchange returned"""
+    ops = rv.get("ops") or []
+    if not ops or depth > 4:
+        return False
+    for op in ops:
+        if op.get("k") == "const":
+            return False
+        origins = M.trace(B, op, H.FLOW_IDENTITY + ("convert::From::from", "convert::Into::into"))
+        if not origins:
+            return False
+        for o in origins:
+            if o.kind == "call" and (M.Body.callee_decl(o.term) or "").endswith(STEP_ERRORS):
+                continue
+            if o.kind == "aggregate" and o.rv.get("ak") == "adt" and _err_of_a_step(B, o.rv, depth + 1):
+                continue
+            return False
+    return True
 
 
 def _is_status_gate(F, hb):
